@@ -1,7 +1,9 @@
 (* C08 — Pins and API records survive every encoding boundary; decoders never crash.
    Statements only; every proof is `exact <lemma of Proofs/C08_*.v>`.
    Quantification: every pin value / every decoded protobuf message (fields arbitrary or absent). *)
-From V Require Import Base.Common Base.C08_Str Model.C08_Codec Model.C08_Query Proofs.C08_Codec Proofs.C08_Query.
+From V Require Import Base.Common Base.C08_Str Model.C08_Codec Model.C08_Query Model.C08_Status
+  Proofs.C08_Codec Proofs.C08_Query Proofs.C08_Status.
+From Coq Require Import Permutation.
 Open Scope string_scope.
 Open Scope Z_scope.
 
@@ -84,3 +86,35 @@ Example wf_q_example :
                        ("shard-size", "1024"); ("user-allocations", "QmPeerA,QmPeerB"); ("expire-at", "2026-09-22T10:40:00.5Z");
                        ("meta-k", "v"); ("meta-k2", ""); ("pin-update", "QmOld"); ("origins", "/ip4/1.2.3.4/tcp/1/p2p/QmPeerA")].
 Proof. vm_compute. split; reflexivity. Qed.
+
+(* ---- names of statuses, pin types and pin modes (over the constant table regenerated from api/types.go) ---- *)
+
+(* every filter made of the defined status bits (all 4096 masks below 2^13 with bit 0 clear) survives
+   String() / TrackerStatusFromString, for every iteration order of the Go map *)
+Theorem tracker_status_names_roundtrip ord m : Permutation ord st_table -> (m < 2 ^ 13)%N -> N.land m 1 = 0%N ->
+  status_from_string (status_string ord m) = m.
+Proof.
+  exact (fun Hp Hl Hb => status_roundtrip_valid ord m Hp
+           (proj2 (andb_true_iff _ _) (conj (proj2 (N.eqb_eq _ _) Hb) (proj2 (N.ltb_lt _ _) Hl)))).
+Qed.
+Print Assumptions tracker_status_names_roundtrip.
+
+(* and for every status value whatsoever only the bits that have no name are lost *)
+Theorem tracker_status_names_all ord m : Permutation ord st_table ->
+  status_from_string (status_string ord m) = N.land m st_defined_bits.
+Proof. exact (status_roundtrip_all ord m). Qed.
+Print Assumptions tracker_status_names_all.
+
+Theorem pin_type_names_roundtrip t : In t [1; 2; 4; 8; 16; 30]%N -> pintype_from_string (pintype_string t) = t.
+Proof. exact (pintype_roundtrip t). Qed.
+Print Assumptions pin_type_names_roundtrip.
+
+Theorem pin_mode_names_roundtrip m : m = 0 \/ m = 1 -> mode_from_string (mode_string m) = m.
+Proof. exact (mode_roundtrip m). Qed.
+Print Assumptions pin_mode_names_roundtrip.
+
+(* the filter the REST client sends for "pin_error or pinned" (the input that used to come back broader) *)
+Example status_filter_example :
+  status_string st_table 20 = "pin_error,pinned" /\ status_from_string "pin_error,pinned" = 20%N /\
+  status_string st_table 30 = "cluster_error,pin_error,unpin_error,error,pinned" /\ status_from_string (status_string st_table 30) = 30%N.
+Proof. vm_compute. repeat split. Qed.
